@@ -18,7 +18,6 @@ import (
 	"verifharness/kit"
 )
 
-
 var t0 = time.Date(2030, 1, 1, 0, 0, 0, 0, time.UTC)
 
 // lossesSeen counts lost-report violations of this run (only shortens later watchdog waits).
@@ -57,6 +56,9 @@ func statusName(s core.DeadlineStatus) string {
 		return fmt.Sprintf("status(%d)", int(s))
 	}
 }
+
+// timerlessSettles counts quiescence probes of this run that found the deadliner without any timer.
+var timerlessSettles atomic.Int64
 
 func TestCheck(t *testing.T) {
 	r := kit.Start(t, "C16")
@@ -223,13 +225,31 @@ func runCase(c *kit.Case) {
 			if st := dl.Add(probe); st != core.DeadlineExempt {
 				fail("deadliner/exempt-status", fmt.Sprintf("Add of never-expiring duty returned %s", statusName(st)))
 			}
-			bctx, bcancel := context.WithTimeout(ctx, 20*time.Second)
+			// (waits shrink once the run has met a deadliner that idles without a timer several times)
+			w1, w2 := 250*time.Millisecond, 2*time.Second
+			if timerlessSettles.Load() > 8 {
+				w1, w2 = 20*time.Millisecond, 60*time.Millisecond
+			}
+			bctx, bcancel := context.WithTimeout(ctx, w1)
 			err := clock.BlockUntilContext(bctx, 1)
 			bcancel()
 			if err != nil {
-				r.Inconclusive("case %d: deadliner did not re-arm its timer within the watchdog", c.Idx)
-				inconclusive = true
-				return false
+				// No timer armed. Every registration the deadliner takes is one turn of its loop, and a
+				// turn that finds both a fired timer and a registration picks one at random: after 24
+				// more registrations a fired timer has been handled (and its successor armed) with
+				// probability 1 - 2^-24. If there still is no timer then, the deadliner simply holds
+				// none at the moment (nothing the statement forbids); the case goes on and is judged
+				// by what is reported.
+				for j := 0; j < 24; j++ {
+					dl.Add(probe)
+				}
+				bctx, bcancel = context.WithTimeout(ctx, w2)
+				err = clock.BlockUntilContext(bctx, 1)
+				bcancel()
+				if err != nil {
+					r.Count("settled_without_an_armed_timer", 1)
+					timerlessSettles.Add(1)
+				}
 			}
 		}
 
